@@ -202,6 +202,12 @@ def run_task(task):
                 except BaseException:
                     pass
             res["samples"].append({"model": pmodel, "script": list(ex.script), "outcome": _canon(outcome)})
+        if task.get("collect_leaves") and status == "ok":
+            import z3 as _z3
+            asserts = list(ex.solver.assertions())
+            pc = _z3.And(*asserts) if asserts else _z3.BoolVal(True)
+            res.setdefault("leaves", []).append({"pc": pc.sexpr(), "outcome": _canon(outcome)})
+            res["leaf_vars"] = sorted(set(res.get("leaf_vars", [])) | set(ctx.vars))
         res["queries"] += ex.queries
         res["solver_s"] += ex.solver_time
         res["unknown"] += ex.unknown
